@@ -349,3 +349,76 @@ theorem slv_setItem_wf {a c : SLV} (ha : SLVWF a) (idx : Idx) (v : SV.Val) (same
       exact slv_setMany_wf ha _ hidx v hd
 
 end ThermoVerif.Sparse
+
+namespace ThermoVerif.Sparse
+open ThermoVerif.Dense
+
+/-! ### `sa[...] = value`: sizes of the pieces of the value, sizes kept by `__setitem__` -/
+
+def listMax (l : List Nat) : Nat := l.foldl max 0
+
+theorem le_foldl_max (l : List Nat) (a : Nat) : a ≤ l.foldl max a ∧ ∀ x ∈ l, x ≤ l.foldl max a := by
+  induction l generalizing a with
+  | nil => simp
+  | cons y l ih =>
+    simp only [List.foldl_cons]
+    have := ih (max a y)
+    refine ⟨le_trans (le_max_left a y) this.1, ?_⟩
+    intro x hx
+    rcases List.mem_cons.mp hx with e | e
+    · subst e; exact le_trans (le_max_right a x) this.1
+    · exact this.2 x e
+
+theorem le_listMax {l : List Nat} {x : Nat} (h : x ∈ l) : x ≤ listMax l := (le_foldl_max l 0).2 x h
+
+/-- the longest piece of the value of `sa[...] = value` (0 for a number) -/
+def SAVal.maxLen : SAVal → Nat
+  | .scalar _ => 0
+  | .vec l => l.length
+  | .obj o => o.size
+  | .mat m => listMax (m.map List.length)
+  | .rowsOf l => listMax (l.map VecObj.size)
+  | .deep => 0
+
+theorem sv_setItem_size {a c : SV} (idx : Idx) (v : SV.Val) (same : Bool) (h : a.setItem idx v same = .ok c) :
+    c.size = a.size ∧ c.readOnly = a.readOnly := by
+  unfold SV.setItem at h
+  split at h
+  · cases h
+  · repeat' split at h
+    all_goals first
+      | (cases h <;> done)
+      | (simp only [Except.ok.injEq] at h; subst h; exact ⟨rfl, rfl⟩)
+      | (obtain ⟨d, _, e⟩ := except_map_ok' h; subst e; exact ⟨rfl, rfl⟩)
+
+theorem slv_setItem_size {a c : SLV} (idx : Idx) (v : SV.Val) (same : Bool) (keys : Option (List Nat))
+    (h : a.setItem idx v same keys = .ok c) : c.size = a.size := by
+  unfold SLV.setItem at h
+  repeat' split at h
+  all_goals first
+    | (cases h <;> done)
+    | (simp only [Except.ok.injEq] at h; subst h; rfl)
+    | (obtain ⟨d, _, e⟩ := except_map_ok' h; subst e; rfl)
+
+theorem pyRange_lt (start stop step : Nat) : ∀ i ∈ pyRange start stop step, i < stop := by
+  intro i hi
+  unfold pyRange at hi
+  split at hi
+  · cases hi
+  · rename_i hs
+    obtain ⟨k, hk, e⟩ := List.mem_map.mp hi
+    subst e
+    have hk' := List.mem_range.mp hk
+    have hpos : 0 < step := Nat.pos_of_ne_zero hs
+    have h2 := Nat.div_mul_le_self (stop - start + step - 1) step
+    have h3 : (k + 1) * step ≤ (stop - start + step - 1) / step * step := Nat.mul_le_mul_right step hk'
+    rw [Nat.succ_mul] at h3
+    have h4 : k * step + step ≤ stop - start + step - 1 := le_trans h3 h2
+    omega
+
+theorem idxInRange_open (n : Nat) : idxInRange n (.slice none none none) := by
+  intro i hi
+  unfold defaultRange at hi
+  simpa using pyRange_lt _ _ _ i hi
+
+end ThermoVerif.Sparse
